@@ -213,9 +213,9 @@ def _rt(cfg, mapk, **kw):
                bounds=('EventQueue (every dispatch = enqueue + process), ' if viaq else 'EventDispatcher, ') + '%s, %s; two registered keys (2 listeners each: one by value that consumes its copy, one by const reference) and the dispatched key are %s; payload symbolic; dispatched from temporaries and from lvalues'
                       % (_RT[cfg], _MK[mapk], 'symbolic 32-bit values (8 significant bits with hashed maps)' if cfg != 6 else 'chosen among 4 strings'), **kw)
 PROPS['C04'] = Prop(
-    quick=[_rt(0, 1), _rt(1, 0), _rt(2, 1), _rt(3, 2), _rt(4, 1), _rt(5, 1), _rt(7, 1), _rt(8, 1), _rt(2, 1, viaqueue=True), _rt(3, 1, viaqueue=True)],
+    quick=[_rt(0, 1), _rt(1, 0), _rt(2, 1), _rt(3, 2), _rt(4, 1), _rt(5, 1), _rt(7, 1), _rt(8, 1), _rt(2, 1, viaqueue=True), _rt(3, 1, viaqueue=True), _rt(6, 1), _rt(6, 0), _rt(6, 1, viaqueue=True)],
     thorough=[_rt(c, m) for c in (0, 1, 2, 3, 4, 5, 7, 8) for m in range(3) if not (c in (7, 8) and m != 1)] + [_rt(c, 1, viaqueue=True) for c in (0, 1, 2, 3, 4, 5)],
-    outside='std::string keys (configuration 6 of the harness is NOT run: libstdc++ std::string needs out-of-line functions of libstdc++.so -- _M_construct, _M_create, _M_mutate ... -- that are not re-implemented in support/stdsupport.cpp; the user key type with an emptying move constructor stands in for it); more than two registered keys; per-event listener histories beyond append (those are C01/C02 on the per-event CallbackList); compilers other than clang-14 are covered only by native replay of the witness paths (g++ -O0/-O2, clang++ -O1), not by the solver',
+    outside='std::string keys other than the four 20-character strings of configuration 6 (basic_string<char> is instantiated explicitly in the harness TU, std::_Hash_bytes is re-implemented in the support TU and compared with libstdc++.so on every run); more than two registered keys; per-event listener histories beyond append (those are C01/C02 on the per-event CallbackList); compilers other than clang-14 are covered only by native replay of the witness paths (g++ -O0/-O2, clang++ -O1), not by the solver',
     assumptions=['Callback type is std::function; listeners of one event take the payload by value (and move from their copy) and by const reference',
                  'a witness path on which a g++ build violates an assertion while the clang build and the engine agree is reported as a violation (compiler-dependent behaviour)'])
 
